@@ -208,6 +208,20 @@ def ssl2_lines(rng, n):
     return lines
 
 
+def noncanonical_version_only(line, m, i):
+    """An identification string whose protocol version is not in the digits the generator writes (a corrupted "2.07"): the library
+    reads the numbers and writes "2.7" again, which is the canonical form C05 is about; here only the consumed length is compared."""
+    if not (line.startswith('bannerline ') and m.startswith('OK ') and i.startswith('OK ')):
+        return False
+    try:
+        raw = bytes.fromhex(line.split(' ')[1])
+    except ValueError:
+        return False
+    if raw.startswith((b'SSH-2.0-', b'SSH-1.99-', b'SSH-1.5-')):
+        return False
+    return m.rsplit(' n=', 1)[-1] == i.rsplit(' n=', 1)[-1]
+
+
 def banner_lines(rng, n):
     """SSH identification strings of all lengths up to the limit, with CR LF and with LF only, alone and followed by other bytes
     (binary data, a second LF, a second banner, a key exchange packet), corrupted and truncated"""
@@ -268,7 +282,8 @@ def run(chk):
     if br.ok:
         model_out = common.run_model(lines)
         diffs = [(l, m, i) for l, m, i in zip(lines, model_out, impl_out) if m != i and m not in ('ERR OutOfFuel', 'OUTOFFUEL')   # OutOfFuel: hello messages, not modelled
-                 and not (l.startswith('bannerline') and i.startswith(('ERR ', 'LEAK ')))]   # the banner specification has neither error kinds nor the
+                 and not (l.startswith('bannerline') and i.startswith(('ERR ', 'LEAK ')))
+                 and not noncanonical_version_only(l, m, i)]   # the banner specification has neither error kinds nor the
         # character-set and version checks of the library: what the library accepts must be accepted alike (same string, same n)
         chk.coverage['disagreements'] = len(diffs)
         for l, m, i in diffs[:3]:
